@@ -88,7 +88,9 @@ func writeEvidence(id, tier string, seed int, prog *interp.Program, results []*i
 	cov["solver_queries"] = queries
 	cov["solver_unknown"] = unknown
 	cov["solver_time_ms"] = round2(solverMS)
-	cov["solver"] = "z3 5.1.0 (z3-new -in, incremental push/pop)"
+	cov["solver"] = "z3 5.1.0 (z3-new -in, incremental push/pop); on unknown: stand-alone cvc5 1.0 then z3 4.8.12; thorough tier: every unsat obligation re-checked by cvc5"
+	cov["fallback_solver_queries"] = interp.FallbackQueries
+	cov["obligations_cross_checked_by_cvc5"] = interp.CrossChecked
 	cov["interpreted_instructions"] = steps
 	cov["entries"] = entries
 	cov["functions_encoded_repo"] = sortedKeys(funcs, 400)
